@@ -12,7 +12,7 @@ open Finset BigOperators Matrix
 
 set_option linter.unusedSectionVars false
 
-namespace GT
+namespace GT.Iso
 
 variable {K : Type*} [Field K] {n m : ℕ}
 
@@ -387,4 +387,4 @@ theorem reflectAcross_eq_closed (D : Matrix (Fin (n + 1)) (Fin (n + 1)) K) (hD :
   unfold reflectAcross
   rw [Matrix.mul_assoc, key, ← Matrix.mul_assoc, Matrix.nonsing_inv_mul _ hD, Matrix.one_mul]
 
-end GT
+end GT.Iso
